@@ -103,6 +103,15 @@ def holds(spec, toks):
         return False
     if mode == 'member':
         return toks in spec['members']
+    if mode == 'unbalanced':
+        # a solver that fails on text that is not a sequence of complete
+        # s-expressions ('unexpected end of file', 'unmatched )')
+        d = 0
+        for t in toks:
+            d += (t == '(') - (t == ')')
+            if d < 0:
+                return True
+        return d != 0
     if mode == 'always':
         return True
     if mode == 'never':
@@ -156,7 +165,9 @@ def main():
         import sched
         sched.client_wait(spec['sched_sock'],
                           {'pid': os.getpid(), 'ppid': os.getppid(),
-                           'verdict': v, 'ntoks': len(toks)})
+                           'verdict': v, 'ntoks': len(toks),
+                           'th': hashlib.sha1('\0'.join(toks).encode(
+                               'utf-8', 'surrogatepass')).hexdigest()[:16]})
     if beh.get('ticks_ms'):
         # a hanging command that reports progress: one flushed line every
         # ticks_ms milliseconds, forever
